@@ -57,6 +57,7 @@ type c11sys struct {
 const (
 	c11Far   = time.Hour
 	c11Short = time.Second
+	c11Frac  = 200 * time.Millisecond
 )
 
 
@@ -82,6 +83,8 @@ func (s *c11sys) do(th int, name string) {
 		store(0, c11Far)
 	case "storeShort0":
 		store(0, c11Short)
+	case "storeFrac0":
+		store(0, c11Frac) // expires within the current second
 	case "storeExpired0":
 		store(0, -time.Nanosecond)
 		o.ignored = true
@@ -105,12 +108,15 @@ func (s *c11sys) do(th int, name string) {
 	case "advance2s":
 		s.ops = append(s.ops, o)
 		vs.Sleep(2 * time.Second)
+	case "advance300ms":
+		s.ops = append(s.ops, o)
+		vs.Sleep(300 * time.Millisecond)
 	}
 	s.seq++
 	o.end = s.seq
 }
 
-var c11point = []string{"get0", "get1", "storeA0", "storeShort0", "storeExpired0", "store1", "store2", "advance2s"}
+var c11point = []string{"get0", "get1", "storeA0", "storeShort0", "storeFrac0", "storeExpired0", "store1", "store2", "advance2s", "advance300ms"}
 var c11full = []string{"flush", "len", "range", "gc"}
 
 // c11Scenario: progs[t] lists, per operation slot of thread t, the menu the
